@@ -446,6 +446,19 @@ def set_uses(rel):
                 it = it.args[0]
             if is_set_expr(it):
                 finding(n if isinstance(n, ast.For) else n.iter, "iterates_set", "<set expression>")
+        if is_set_expr(n):
+            # a set EXPRESSION (not bound to a name first) used anywhere but: bound to a name (tracked above), a membership test, len(), a boolean
+            # test, a set-algebra operand, the receiver of a membership-only method. tuple(set(xs)), list({..}), *set(xs), f(set(xs)) all order by hash.
+            p = n._p
+            ok = isinstance(p, (ast.Assign, ast.AnnAssign, ast.AugAssign)) and getattr(p, "value", None) is n
+            ok = ok or (isinstance(p, ast.Compare) and n in p.comparators and all(isinstance(o, (ast.In, ast.NotIn, ast.Eq, ast.NotEq, ast.LtE, ast.GtE, ast.Lt, ast.Gt)) for o in p.ops))
+            ok = ok or (isinstance(p, ast.Call) and dotted(p.func) in ("len", "bool", "set", "frozenset") and n in p.args)
+            ok = ok or (isinstance(p, ast.BinOp) and isinstance(p.op, (ast.BitOr, ast.BitAnd, ast.Sub, ast.BitXor)))
+            ok = ok or (isinstance(p, ast.Attribute) and p.value is n and p.attr in SET_OK_METHODS | {"issubset", "issuperset", "isdisjoint", "union", "intersection", "difference", "copy"})
+            ok = ok or isinstance(p, (ast.If, ast.While, ast.BoolOp, ast.UnaryOp, ast.IfExp)) and getattr(p, "test", n) is n
+            ok = ok or (isinstance(p, (ast.For, ast.comprehension)) and p.iter is n)       # reported by the loop rule above
+            if not ok:
+                finding(n, "iterates_set" if isinstance(p, (ast.Call, ast.Starred)) else "set_escapes", "<set expression> in %s" % type(p).__name__)
         if isinstance(n, ast.Call):
             if dotted(n.func) in ("id", "hash"):
                 finding(n, "uses_" + dotted(n.func), dotted(n.func))
